@@ -804,8 +804,12 @@ class Gen:
         ctx = Ctx()
         for m in self.mods:
             lines.append(f"import {m.dotted}")
-        lines += ["", "", "def _show(label, fn, *a, **k):", "    try:", "        print(label, fn(*a, **k))",
-                  "    except Exception as e:", "        print(label, 'raised', type(e).__name__, e)", "", ""]
+        lines += [""]
+
+        def show(label, call):
+            # direct call (keyword arguments stay visible to static analysis), exceptions are printed
+            return [f"try:", f"    print({label!r}, {call})", "except Exception as _e:",
+                    f"    print({label!r}, 'raised', type(_e).__name__, _e)"]
         n_inst = 0
         reps = 3 if self.k["multi_call_sites"] else 2
         for m in self.mods:
@@ -815,7 +819,7 @@ class Gen:
             for f in m.funcs:
                 for _ in range(reps):
                     args = f.call_args(rnd, self.lit)
-                    lines.append(f"_show({pre + '.' + f.name!r}, {pre}.{f.name}" + (", " + args if args else "") + ")")
+                    lines += show(pre + '.' + f.name, f"{pre}.{f.name}({args})")
             for c in m.classes:
                 for _ in range(2):
                     n_inst += 1
@@ -825,17 +829,17 @@ class Gen:
                         lines.append(f"print({o + '.' + fld!r}, {o}.{fld})")
                     for meth in c.all_methods():
                         args = meth.call_args(rnd, self.lit)
-                        lines.append(f"_show({o + '.' + meth.name!r}, {o}.{meth.name}" + (", " + args if args else "") + ")")
+                        lines += show(o + '.' + meth.name, f"{o}.{meth.name}({args})")
                     if c.all_fields() and rnd.random() < 0.5:
                         fld = rnd.choice(c.all_fields())
                         lines.append(f"{o}.{fld} += {self.lit()}")
                         lines.append(f"print({o + '.' + fld + ' after'!r}, {o}.{fld})")
                 for s in c.all_statics():
                     args = s.call_args(rnd, self.lit)
-                    lines.append(f"_show({c.name + '.' + s.name!r}, {pre}.{c.name}.{s.name}" + (", " + args if args else "") + ")")
+                    lines += show(c.name + '.' + s.name, f"{pre}.{c.name}.{s.name}({args})")
                 for s in c.all_classmethods():
                     args = s.call_args(rnd, self.lit)
-                    lines.append(f"_show({c.name + '.' + s.name!r}, {pre}.{c.name}.{s.name}" + (", " + args if args else "") + ")")
+                    lines += show(c.name + '.' + s.name, f"{pre}.{c.name}.{s.name}({args})")
             for n_, ci in m.instances:
                 for fld in ci.all_fields():
                     lines.append(f"print({pre + '.' + n_ + '.' + fld!r}, {pre}.{n_}.{fld})")
